@@ -64,6 +64,7 @@ def amount_classes(rng, rate):
         rng.randrange(200_000, 5_000_000),
         rng.randrange(1_000_000, 60_000_000),
         rng.choice([COIN // 100, COIN // 10, COIN, 3 * COIN // 2]),
+        rng.choice([10 ** 4, 10 ** 6, 10 ** 8, 10 ** 2]),          # exactly on the edges of the sqlite chooser's amount windows
     ])
 
 
@@ -103,11 +104,11 @@ def one_case(ctx, base, k, rng):
     env = WalletEnv(d, nacc=2, fee_per_byte=rate, strategy=strat)
     try:
         ledger = env.ledger
-        ledger.fee_per_name_char = rng.choice([0, 0, 200_000])
+        ledger.fee_per_name_char = rng.choice([0, 0, 1, 40, 2_000, 200_000])      # below and above the size fee of a claim output
         shape = rng.random()
         big = shape > 0.97
         ncoins = rng.choice([0, 1, 2, 3, 4, 5, 6, 8, 10, 12]) if not big else rng.choice([80, 250])
-        if not big and shape < 0.16:
+        if not big and shape < 0.22:
             ncoins = 0          # directed modes below bring their own coins
         coins = []
         total = 0
@@ -133,6 +134,14 @@ def one_case(ctx, base, k, rng):
             coins = []
             tx, outs = env.fund([rng.choice([2_000_000, 20_000_000])] + [rng.choice([100, 546, 1000, 148 * rate - 1])] * rng.choice([30, 120, 200]),
                                 acc=env.accounts[0], verified=True)
+            for o in outs:
+                coins.append({'id': len(coins) + 1, 'txo': o, 'amount': o.amount, 'confirmed': True, 'acc': 0})
+        elif not big and 0.16 <= shape < 0.22:
+            # directed: coins exactly on the edges of the sqlite chooser's amount windows, payment walking across windows
+            mode = 'window-edges'
+            coins = []
+            amts = [rng.choice([50_000, 700_000]), 10 ** 6, rng.choice([10 ** 8, 3 * 10 ** 6]), 10 ** 8]
+            tx, outs = env.fund(amts, acc=env.accounts[0], verified=True)
             for o in outs:
                 coins.append({'id': len(coins) + 1, 'txo': o, 'amount': o.amount, 'confirmed': True, 'acc': 0})
         elif not big and shape < 0.16:
@@ -163,6 +172,11 @@ def one_case(ctx, base, k, rng):
         target_total = int(spendable_eff * rel) + rng.choice([0, 0, -2801, -500, 1, 10, 2800, 12_000])
         target_total = max(0, min(target_total, LIMIT // 2))
         req = make_request(rng, ledger, target_total, big=big and rng.random() < 0.5)
+        if mode == 'window-edges':
+            pre = []
+            strat = 'sqlite' if rng.random() < 0.7 else strat
+            ledger.coin_selection_strategy = strat
+            req = [Output.pay_pubkey_hash(rng.choice([10 ** 6 + 600_000, 10 ** 8 + 500_000, 2 * 10 ** 6]), b'\x09' * 20)]
         if mode == 'dusty':
             pre = []
             req = [Output.pay_pubkey_hash(coins[0]['eff'] // 2, b'\x09' * 20)]
